@@ -134,6 +134,8 @@ type c11Case struct {
 	MoreTrees []*fexpr `json:"more_trees,omitempty"`
 	// Inner (container, choice, case): everything inside the guarded definition is guarded by this expression of its
 	// own: the definition is there (empty) when its own expression holds, whatever becomes of its content
+	// OwnPrefix: the feature names are written with the module's own prefix (m:a), which names the same features
+	OwnPrefix bool   `json:"own_prefix,omitempty"`
 	Inner     string `json:"inner,omitempty"`
 	InnerTree *fexpr `json:"inner_tree,omitempty"`
 }
@@ -288,6 +290,9 @@ func c11Run(c c11Case, o *hx.Obs) {
 	if c.Inner != "" {
 		o.Class("the content of the definition has an if-feature of its own")
 	}
+	if c.OwnPrefix {
+		o.Class("feature names carry the module's own prefix")
+	}
 	if nops >= 2 || strings.Contains(c.Expr, "(") {
 		o.NonTrivial()
 	}
@@ -367,6 +372,17 @@ func c11Gen(t *rapid.T) c11Case {
 	sp := rapid.SampledFrom([]string{"", "", " "}).Draw(t, "spacing")
 	c.Tree.render(&b, 0, sp)
 	c.Expr = b.String()
+	if rapid.IntRange(0, 3).Draw(t, "own-prefix") == 0 {
+		c.OwnPrefix = true
+		var toks []string
+		for _, tok := range strings.Fields(strings.NewReplacer("(", " ( ", ")", " ) ").Replace(c.Expr)) {
+			if containsStr(featNames, tok) {
+				tok = "m:" + tok
+			}
+			toks = append(toks, tok)
+		}
+		c.Expr = strings.Join(toks, " ")
+	}
 	if (c.Stmt == "container" || c.Stmt == "choice" || c.Stmt == "case") && rapid.Bool().Draw(t, "inner-guard") {
 		c.InnerTree = genFexpr(t, rapid.IntRange(0, 1).Draw(t, "inner-depth"))
 		c.Inner = c.InnerTree.String()
